@@ -82,6 +82,70 @@ pub fn v0_bytes() -> &'static Vec<u8> {
     B.get_or_init(|| std::fs::read(BUNDLED).expect("bundled voice file"))
 }
 
+/// A voice file taken apart: the header up to and including "[POSITION]\n", the [POSITION] keys, and every data block
+/// as (key index, position within the key's range list, bytes).
+pub struct Parts {
+    pub head: String,
+    pub keys: Vec<String>,
+    pub blocks: Vec<(usize, usize, Vec<u8>)>,
+}
+pub fn split_blocks(orig: &[u8]) -> Parts {
+    let dp = orig.windows(7).position(|w| w == b"[DATA]\n").expect("[DATA]") + 7;
+    let header = std::str::from_utf8(&orig[..dp]).expect("utf8 header");
+    let data = &orig[dp..];
+    let ppos = header.find("[POSITION]\n").expect("[POSITION]") + "[POSITION]\n".len();
+    let head = header[..ppos].to_string();
+    let plines: Vec<&str> = header[ppos..].lines().take_while(|l| !l.starts_with('[')).collect();
+    let mut blocks = Vec::new();
+    let mut keys = Vec::new();
+    for (li, l) in plines.iter().enumerate() {
+        let (k, v) = l.split_once(':').expect("key:ranges");
+        keys.push(k.to_string());
+        for (ri, r) in v.split(',').enumerate() {
+            let (a, b) = r.split_once('-').expect("a-b");
+            let (a, b): (usize, usize) = (a.parse().unwrap(), b.parse().unwrap());
+            blocks.push((li, ri, data[a..=b].to_vec()));
+        }
+    }
+    Parts { head, keys, blocks }
+}
+/// Put the parts together again, blocks stored in the given order (indices into `parts.blocks`), optionally with three
+/// 0xFF filler bytes around every block; [POSITION] is written to match.
+pub fn assemble(parts: &Parts, order: &[usize], filler: bool) -> Vec<u8> {
+    let mut out_data: Vec<u8> = Vec::new();
+    let mut ranges: Vec<Vec<String>> = parts.keys.iter().enumerate().map(|(li, _)| vec![String::new(); parts.blocks.iter().filter(|b| b.0 == li).count()]).collect();
+    for &bi in order {
+        if filler {
+            out_data.extend([0xFFu8; 3]);
+        }
+        let (li, ri, bytes) = &parts.blocks[bi];
+        let a = out_data.len();
+        out_data.extend(bytes);
+        ranges[*li][*ri] = format!("{}-{}", a, (out_data.len() as i64 - 1).max(a as i64));
+    }
+    if filler {
+        out_data.extend([0xFFu8; 3]);
+    }
+    let mut h = parts.head.clone();
+    for (li, k) in parts.keys.iter().enumerate() {
+        h += &format!("{}:{}\n", k, ranges[li].join(","));
+    }
+    h += "[DATA]\n";
+    let mut out = h.into_bytes();
+    out.extend(out_data);
+    out
+}
+/// The same voice file with its [DATA] blocks stored in another order (mode bit 1: reversed) and/or separated by three
+/// filler bytes 0xFF (mode bit 2); [POSITION] is rewritten accordingly, the rest of the header is kept verbatim.
+pub fn repack(orig: &[u8], mode: u8) -> Vec<u8> {
+    let parts = split_blocks(orig);
+    let mut order: Vec<usize> = (0..parts.blocks.len()).collect();
+    if mode & 1 != 0 {
+        order.reverse();
+    }
+    assemble(&parts, &order, mode & 2 != 0)
+}
+
 /// P_k(V0): PDF floats perturbed at byte level (means x(1±0.02k), variances x(1+0.1k), MSD weights
 /// moved toward 0.5 by 0.2k of their distance, GV means x(1+0.05k)); trees/metadata untouched.
 pub fn perturb(orig: &[u8], k: usize) -> Vec<u8> {
